@@ -1,0 +1,9 @@
+//go:build verif
+
+package ios
+
+// VerifRemoveBanner calls the real removeBanner (verification harness only).
+// removeBanner works in place: the caller passes a private copy.
+func VerifRemoveBanner(data []byte) []byte {
+	return removeBanner(data)
+}
